@@ -64,7 +64,6 @@ package chk
 //@ pred allInS(m map[string]*client.OpResult, res []*client.OpResult, n Int) = forall k in dom(m) :: inRes(res, n, m[k])
 //@ pred wantFound(res []*client.OpResult, want *client.OpResult, opt []resultOpt) = exists i in 0..len(res) :: wantMatches(res[i], want, opt)
 
-
 // Completeness of the cached checker ("agrees with the plain one whenever result keys are unique"). cmp.Equal is an uninterpreted
 // predicate here, so "the want is present" is stated together with what a match implies for the fields the caches are keyed by:
 // equal operation ids when they are compared, equal details otherwise (strongFound). keyClass: which cache a result is filed in.
@@ -125,7 +124,6 @@ package chk
 //@   E[i] != nil && E[i].NetworkInstance == ni && istype(E[i].Entry, *spb.AFTEntry_NextHopGroup) && E[i].GetNextHopGroup().GetId() == k
 //@ pred nhSound(m map[uint64]*spb.AFTEntry, ni string, E []*spb.AFTEntry, n Int) = forall k in dom(m) :: exists i in 0..n ::
 //@   E[i] != nil && E[i].NetworkInstance == ni && istype(E[i].Entry, *spb.AFTEntry_NextHop) && E[i].GetNextHop().GetIndex() == k
-
 
 // indexed (completeness of the index): every response entry seen so far that carries a usable key (non-zero id / index, non-empty
 // prefix, a uint64 label) is filed under its network instance in the index of its kind.
